@@ -172,3 +172,221 @@ theorem iter_scalar {st : LoopSt} {sn : Option (List UInt8)} {oa od : Nat} (hD :
   | fieldName => cases hsc
 
 end Binson
+
+namespace Binson
+
+theorem objBlock_fieldName {lv : Level} (hf : lv.flags = .expField) :
+    objBlock lv .string = some (lv, .fieldName) := by
+  unfold objBlock
+  simp [hf, Flags.inObject, Tok.isValue]
+
+theorem objBlock_end {lv : Level} {tok : Tok} (hv : tok.isValue = false) (hn : tok ≠ .string) :
+    objBlock lv tok = some (lv, tok) := by
+  unfold objBlock
+  by_cases h : lv.flags.inObject = true
+  · simp [h, hv, hn]
+  · simp [h]
+
+/-- a field name below the originating level: stored as the level's name, the level now expects its value -/
+theorem iter_fieldName {st : LoopSt} {sn : Option (List UInt8)} {oa od : Nat} (hD : Deep st oa od)
+    (span : Span) (bc : Nat) (q : Parser) (hq : q = { st.p with used := st.p.used + bc })
+    (hcl : classify st.p st.bc = ⟨.string, span, bc, q⟩)
+    (hfit : st.p.used + bc ≤ st.p.size) (hsp : span.off + span.len ≤ st.p.size)
+    (hf : (st.p.getLvl st.p.lvlIdx).flags = .expField)
+    (hord : ∀ pn, (st.p.getLvl st.p.lvlIdx).name = some pn → cmpBytes (st.p.slice pn) (st.p.slice span) < 0) :
+    iter st sn oa od =
+      ({ p := q.setLvl st.p.lvlIdx { st.p.getLvl st.p.lvlIdx with name := some span, flags := .expValue },
+         scan := st.scan, bc := bc,
+         ev := (.fieldName, { st.p.getLvl st.p.lvlIdx with name := some span, flags := .expValue }) :: st.ev }, .cont) := by
+  have hsh := hD.shape
+  have hqs : Shape q := by rw [hq]; exact hsh.withUsed _ hfit
+  have hqd : q.depth = st.p.depth := by rw [hq]
+  have hqi : q.lvlIdx = st.p.lvlIdx := by rw [hq]; rfl
+  have hqg : q.getLvl q.lvlIdx = st.p.getLvl st.p.lvlIdx := by rw [hq]; rfl
+  have hqe : q.err = .none := by rw [hq]; exact hD.err
+  have hqb : q.buf = st.p.buf := by rw [hq]
+  have hqc : q.cur = st.p.lvlIdx := by rw [← hqi]; exact hqs.hcur
+  have hli : st.p.lvlIdx < q.levels.size := by rw [← hqi]; exact hqs.lvlIdx_lt
+  have hsl : ∀ s, q.slice s = st.p.slice s := by intro s; unfold Parser.slice; rw [hqb]
+  unfold iter
+  simp only [hcl, show Tok.string ≠ Tok.error by decide, if_false]
+  rw [hqg, objBlock_fieldName hf]
+  have hno := deep_notOrig hD (st.p.getLvl st.p.lvlIdx).ad rfl
+  simp only [hqd, hno, arrBlock_notOrig, hqi]
+  show caseFieldName _ _ _ _ _ _ _ _ _ _ = _
+  unfold caseFieldName
+  have hbuf : span.off + span.len ≤ q.buf.size := by rw [hqs.hbs, hq]; exact hsp
+  have hspl := hsh.hsp hD.err st.p.lvlIdx
+  have htn : touchName (q.touchBuf span.off span.len) (st.p.getLvl st.p.lvlIdx).name = q := by
+    rw [touchBuf_of_le hbuf]
+    unfold touchName
+    cases hn : (st.p.getLvl st.p.lvlIdx).name with
+    | none => rfl
+    | some pn => exact touchBuf_of_le (by rw [hqs.hbs, hq]; exact hspl.1 pn hn)
+  simp only [htn]
+  have hoe : nameOrdErr q (st.p.getLvl st.p.lvlIdx) span = false := by
+    unfold nameOrdErr
+    cases hn : (st.p.getLvl st.p.lvlIdx).name with
+    | none => rfl
+    | some pn =>
+      simp only [hsl]
+      have := hord pn hn
+      simp; omega
+  simp only [hoe, Bool.false_eq_true, if_false]
+  have hno' : ¬ (oa = (st.p.getLvl st.p.lvlIdx).ad ∧ od = q.depth) := by
+    rw [hqd]; simpa using hno
+  rw [if_neg hno']
+  rw [finish_cont _ _ _ _ _ _ _ hli hqe (Or.inl rfl)]
+  have hev : (q.setLvl st.p.lvlIdx { st.p.getLvl st.p.lvlIdx with name := some span, flags := .expValue }).getLvl
+      (q.setLvl st.p.lvlIdx { st.p.getLvl st.p.lvlIdx with name := some span, flags := .expValue }).cur =
+      { st.p.getLvl st.p.lvlIdx with name := some span, flags := .expValue } := by
+    rw [(setLvl_fields (p := q) _ hli).2.2.2.2.2.2.2.1, hqc, getLvl_setLvl _ hli]
+    simp
+  rw [hev]
+
+end Binson
+
+namespace Binson
+
+theorem getLvl_withUsed (p : Parser) (u : Nat) (i : Nat) : ({ p with used := u } : Parser).getLvl i = p.getLvl i := rfl
+
+/-- `[` in value position below the originating level: consumed, the level is now inside one more array -/
+theorem iter_arrBegin {st : LoopSt} {sn : Option (List UInt8)} {oa od : Nat} (hD : Deep st oa od)
+    (hcl : classify st.p st.bc = ⟨.arrBegin, ⟨st.p.used, 1⟩, st.bc,
+      st.p.setLvl st.p.lvlIdx { st.p.getLvl st.p.lvlIdx with ctype := .array }⟩)
+    (hlt : st.p.used < st.p.size) (hctx : ValCtx (st.p.getLvl st.p.lvlIdx)) (had : (st.p.getLvl st.p.lvlIdx).ad < 255) :
+    ∃ st', iter st sn oa od = (st', .cont) ∧ Shape st'.p ∧ st'.p.err = .none ∧ st'.scan = st.scan ∧
+      st'.p.used = st.p.used + 1 ∧ st'.p.depth = st.p.depth ∧ st.p.Frame st'.p ∧
+      (∀ i, st'.p.getLvl i = if i = st.p.lvlIdx then
+          { st.p.getLvl st.p.lvlIdx with ctype := .array, flags := .arr1, ad := (st.p.getLvl st.p.lvlIdx).ad + 1 }
+        else st.p.getLvl i) ∧
+      st'.ev = (.arrBegin, { st.p.getLvl st.p.lvlIdx with ctype := .array, flags := .arr1, ad := (st.p.getLvl st.p.lvlIdx).ad + 1 }) :: st.ev := by
+  have hsh := hD.shape
+  have hli := hsh.lvlIdx_lt
+  have hspl := hsh.hsp hD.err st.p.lvlIdx
+  obtain ⟨s1, s2, _, s4, s5, s6, s7, s8, s9, s10, s11⟩ :=
+    setLvl_ok (p0 := st.p) hsh (Parser.Frame.refl _) { st.p.getLvl st.p.lvlIdx with ctype := .array } hli (SpansOk_of_fields rfl rfl hspl)
+  have hgq : ∀ i, (st.p.setLvl st.p.lvlIdx { st.p.getLvl st.p.lvlIdx with ctype := .array }).getLvl i =
+      if i = st.p.lvlIdx then { st.p.getLvl st.p.lvlIdx with ctype := .array } else st.p.getLvl i :=
+    fun i => getLvl_setLvl _ hli i
+  generalize hqdef : st.p.setLvl st.p.lvlIdx { st.p.getLvl st.p.lvlIdx with ctype := .array } = q at hcl s1 s2 s4 s5 s6 s7 s8 s9 s10 s11 hgq
+  have hqi : q.lvlIdx = st.p.lvlIdx := by unfold Parser.lvlIdx; rw [s5]
+  have hqg : q.getLvl q.lvlIdx = { st.p.getLvl st.p.lvlIdx with ctype := .array } := by rw [hqi, hgq]; simp
+  have hli' : st.p.lvlIdx < q.levels.size := by rw [s9]; exact hli
+  obtain ⟨lv', hob, hab, h1, h2, h3, h4, _, h6, h7⟩ :=
+    blocks_value hD (lv := { st.p.getLvl st.p.lvlIdx with ctype := .array }) (tok := .arrBegin) q s5 ⟨rfl, rfl⟩ hctx rfl true
+  unfold iter
+  simp only [hcl, show Tok.arrBegin ≠ Tok.error by decide, if_false]
+  rw [hqg, hob]
+  simp only [hab, hqi]
+  show ∃ st', caseArrBegin _ _ _ _ _ = (st', .cont) ∧ _
+  unfold caseArrBegin
+  have hadl : ¬ lv'.ad ≥ 255 := by rw [h1]; simp only; omega
+  rw [if_neg hadl, if_pos hD.cont.has_arrBegin, hD.cont.clear_enterArr]
+  dsimp only
+  have hq1 : Shape { q with used := q.used + 1 } := s1.withUsed (q.used + 1) (by rw [s4, s8]; omega)
+  have hqe : ({ q with used := q.used + 1 } : Parser).err = .none := by show q.err = .none; rw [s6]; exact hD.err
+  rw [finish_cont _ _ ({ q with used := q.used + 1 }) _ _ _ _ hli' hqe (Or.inr hD.cont)]
+  have hL : ({ lv' with flags := .arr1, ad := lv'.ad + 1 } : Level) =
+      { st.p.getLvl st.p.lvlIdx with ctype := .array, flags := .arr1, ad := (st.p.getLvl st.p.lvlIdx).ad + 1 } :=
+    Level.eq_of_fields h4 h3 h2 rfl (by simp only [h1])
+  rw [hL]
+  have hspL : ({ st.p.getLvl st.p.lvlIdx with ctype := .array, flags := .arr1, ad := (st.p.getLvl st.p.lvlIdx).ad + 1 } : Level).SpansOk
+      ({ q with used := q.used + 1 } : Parser).size := by
+    show Level.SpansOk q.size _
+    rw [s8]; exact SpansOk_of_fields rfl rfl hspl
+  obtain ⟨t1, t2, _, t4, t5, t6, t7, t8, t9, t10, t11⟩ :=
+    setLvl_ok (p0 := st.p) hq1 (s2.trans ⟨rfl, rfl, rfl, rfl, rfl⟩) _ hli' hspL
+  have hgf : ∀ i, (({ q with used := q.used + 1 } : Parser).setLvl st.p.lvlIdx
+      { st.p.getLvl st.p.lvlIdx with ctype := .array, flags := .arr1, ad := (st.p.getLvl st.p.lvlIdx).ad + 1 }).getLvl i =
+      if i = st.p.lvlIdx then { st.p.getLvl st.p.lvlIdx with ctype := .array, flags := .arr1, ad := (st.p.getLvl st.p.lvlIdx).ad + 1 }
+      else st.p.getLvl i := by
+    intro i
+    have := getLvl_setLvl (p := ({ q with used := q.used + 1 } : Parser))
+      { st.p.getLvl st.p.lvlIdx with ctype := .array, flags := .arr1, ad := (st.p.getLvl st.p.lvlIdx).ad + 1 } hli' i
+    rw [this]
+    split
+    · rfl
+    · rename_i hne
+      rw [getLvl_withUsed, hgq]; simp [hne]
+  have hc : (({ q with used := q.used + 1 } : Parser).setLvl st.p.lvlIdx
+      { st.p.getLvl st.p.lvlIdx with ctype := .array, flags := .arr1, ad := (st.p.getLvl st.p.lvlIdx).ad + 1 }).cur = st.p.lvlIdx := by
+    rw [t7]; show q.cur = _; rw [s7, hsh.hcur]
+  refine ⟨_, rfl, t1, ?_, rfl, ?_, ?_, t2, hgf, ?_⟩
+  · rw [t6]; exact hqe
+  · rw [t4]; show q.used + 1 = _; rw [s4]
+  · rw [t5]; exact s5
+  · simp only
+    rw [hc, hgf]
+    simp
+
+end Binson
+
+namespace Binson
+
+theorem getLvl_setLvl_used (q : Parser) (u : Nat) (i : Nat) (l : Level) (h : i < q.levels.size) (j : Nat) :
+    (({ q with used := u } : Parser).setLvl i l).getLvl j = if j = i then l else q.getLvl j :=
+  getLvl_setLvl (p := ({ q with used := u } : Parser)) l h j
+
+/-- the level after one of its arrays has been closed -/
+def arrEndLevel (l : Level) : Level :=
+  { l with ad := l.ad - 1, flags := if l.ad - 1 = 0 then .expField else .arr1 }
+
+/-- `]` below the originating level (not the root array's): consumed, one array level less -/
+theorem iter_arrEnd {st : LoopSt} {sn : Option (List UInt8)} {oa od : Nat} (hD : Deep st oa od)
+    (hcl : classify st.p st.bc = ⟨.arrEnd, ⟨st.p.used, 1⟩, st.bc, st.p⟩)
+    (hlt : st.p.used < st.p.size)
+    (hf : (st.p.getLvl st.p.lvlIdx).flags = .arr1 ∨ (st.p.getLvl st.p.lvlIdx).flags = .arr2)
+    (had : 1 ≤ (st.p.getLvl st.p.lvlIdx).ad)
+    (hnr : ¬ ((st.p.getLvl st.p.lvlIdx).ad = 1 ∧ st.p.ptype = 2 ∧ st.p.depth = 1)) :
+    ∃ st', iter st sn oa od = (st', .cont) ∧ Shape st'.p ∧ st'.p.err = .none ∧ st'.scan = st.scan ∧
+      st'.p.used = st.p.used + 1 ∧ st'.p.depth = st.p.depth ∧ st.p.Frame st'.p ∧
+      (∀ i, st'.p.getLvl i = if i = st.p.lvlIdx then
+          arrEndLevel (st.p.getLvl st.p.lvlIdx)
+        else st.p.getLvl i) ∧
+      st'.ev = (.arrEnd, arrEndLevel (st.p.getLvl st.p.lvlIdx)) :: st.ev := by
+  have hsh := hD.shape
+  have hli := hsh.lvlIdx_lt
+  have hspl := hsh.hsp hD.err st.p.lvlIdx
+  have hno := deep_notOrig hD (st.p.getLvl st.p.lvlIdx).ad rfl
+  have hina : (st.p.getLvl st.p.lvlIdx).flags.inArray = true := by rcases hf with h | h <;> rw [h] <;> rfl
+  unfold iter
+  simp only [hcl, show Tok.arrEnd ≠ Tok.error by decide, if_false]
+  rw [objBlock_end rfl (by decide)]
+  simp only [hno, arrBlock_notOrig]
+  show ∃ st', caseArrEnd _ _ _ _ _ _ _ = (st', .cont) ∧ _
+  unfold caseArrEnd
+  simp only [hina, Bool.not_true, Bool.false_eq_true, if_false]
+  rw [if_pos hD.cont.has_arrEnd]
+  have hno2 : ¬ (od = st.p.depth ∧ oa = (st.p.getLvl st.p.lvlIdx).ad) := by
+    intro h; have : (oa = (st.p.getLvl st.p.lvlIdx).ad ∧ od = st.p.depth) := ⟨h.2, h.1⟩
+    simp [this] at hno
+  try dsimp only
+  rw [if_neg hno2, if_neg (by omega : ¬ (st.p.getLvl st.p.lvlIdx).ad = 0)]
+  have hq1 : Shape { st.p with used := st.p.used + 1 } := hsh.withUsed (st.p.used + 1) (by omega)
+  have hqe : ({ st.p with used := st.p.used + 1 } : Parser).err = .none := hD.err
+  have fin : ∀ (L : Level) (hL : L.name = (st.p.getLvl st.p.lvlIdx).name ∧ L.val = (st.p.getLvl st.p.lvlIdx).val),
+      ∃ st', finish { st with bc := st.bc } .arrEnd { st.p with used := st.p.used + 1 } L st.p.lvlIdx st.scan false = (st', .cont) ∧
+        Shape st'.p ∧ st'.p.err = .none ∧ st'.scan = st.scan ∧ st'.p.used = st.p.used + 1 ∧ st'.p.depth = st.p.depth ∧
+        st.p.Frame st'.p ∧ (∀ i, st'.p.getLvl i = if i = st.p.lvlIdx then L else st.p.getLvl i) ∧ st'.ev = (.arrEnd, L) :: st.ev := by
+    intro L hL
+    rw [finish_cont _ _ ({ st.p with used := st.p.used + 1 }) _ _ _ _ hli hqe (Or.inr hD.cont)]
+    obtain ⟨t1, t2, _, t4, t5, t6, t7, t8, t9, t10, t11⟩ :=
+      setLvl_ok (p0 := st.p) hq1 ⟨rfl, rfl, rfl, rfl, rfl⟩ L hli (SpansOk_of_fields hL.1 hL.2 hspl)
+    have hg := getLvl_setLvl_used st.p (st.p.used + 1) st.p.lvlIdx L hli
+    have hc : (({ st.p with used := st.p.used + 1 } : Parser).setLvl st.p.lvlIdx L).cur = st.p.lvlIdx := by
+      rw [t7]; exact hsh.hcur
+    refine ⟨_, rfl, t1, by rw [t6]; exact hqe, rfl, t4, t5, t2, hg, ?_⟩
+    simp only
+    rw [hc, hg]; simp
+  unfold arrEndLevel
+  by_cases h0 : (st.p.getLvl st.p.lvlIdx).ad - 1 = 0
+  · simp only [h0, if_true]
+    have hroot : ¬ (st.p.ptype = 2 ∧ st.p.depth = 1) := by
+      intro h; exact hnr ⟨by omega, h.1, h.2⟩
+    rw [if_neg hroot]
+    exact fin _ ⟨rfl, rfl⟩
+  · simp only [h0, if_false]
+    exact fin _ ⟨rfl, rfl⟩
+
+end Binson
